@@ -51,7 +51,7 @@ class ExprMixin(object):
         return self.global_name(n, st)
 
     def global_name(self, n, st):
-        if n in self.reg.specfns:
+        if n in self.reg.specfns or n in self.reg.uninterp:
             return SpecFn(n)
         if n in BUILTIN_NAMES or (self.spec_mode and n in SPEC_NAMES):
             return SpecFn('builtin:' + n)
